@@ -526,6 +526,10 @@ def parse_float(it, s, n):
             it.raise_("ValueError", node=n)
     if it.spec:
         return VFloat(FLOAT_VAL(s.z))
+    # trusted fact about float(): a plain decimal literal (optional sign, digits, optional fraction) always parses
+    d = z3.Range("0", "9")
+    lit = z3.Concat(z3.Option(z3.Union(z3.Re("-"), z3.Re("+"))), z3.Plus(d), z3.Option(z3.Concat(z3.Re("."), z3.Plus(d))))
+    it.ctx.assume(z3.Implies(z3.InRe(s.z, lit), FLOAT_OK(s.z)), "float:decimal-literals-parse")
     if not it.branch(FLOAT_OK(s.z), "float-ok"):
         it.raise_("ValueError", node=n)
     return VFloat(FLOAT_VAL(s.z))
